@@ -165,6 +165,39 @@ func optsGovernLookups(g *Gen, o *Out, n int) {
 					Request: lastReq(o), Detail: text})
 			}
 		}
+		// ---- an unknown value is a no-op when every selector resolves (explicit nils — JSON null —
+		// resolve): quantifier-free combinations of matches over enumerated paths only
+		g.noMutate = true
+		for k := 0; k < 6; k++ {
+			var e GExpr = g.genMatch(paths, g.r.Intn(6) == 0)
+			for d := g.r.Intn(3); d > 0; d-- {
+				switch g.r.Intn(3) {
+				case 0:
+					e = GNot{e}
+				case 1:
+					e = GAnd{e, g.genMatch(paths, false)}
+				default:
+					e = GOr{g.genMatch(paths, false), e}
+				}
+			}
+			text, _, ok := g.renderTop(e)
+			if !ok || len(paths) == 0 {
+				continue
+			}
+			r0 := evalText(o, nil, text, doc)
+			for _, u := range []interface{}{"x", 0, true, nil, []interface{}{"x"}, map[string]interface{}{"a": 1}} {
+				if g.r.Intn(2) == 0 {
+					continue
+				}
+				ru := evalText(o, []OptSpec{{Kind: "unk", Unk: u}}, text, doc)
+				o.count("govern:unknown-neutral:" + norm(r0))
+				if norm(ru) != norm(r0) {
+					o.finding(Finding{Property: "C18", Kind: "failing-input", What: fmt.Sprintf("every selector resolves, yet WithUnknownValue(%#v) changes the outcome from %s to %s", u, r0, ru), Request: lastReq(o), Detail: text})
+					o.finding(Finding{Property: "C05", Kind: "failing-input", What: fmt.Sprintf("every selector resolves, yet the unknown value %#v changes the outcome from %s to %s", u, r0, ru), Request: lastReq(o), Detail: text})
+				}
+			}
+		}
+		g.noMutate = false
 		// ---- tag name
 		t, j, b := g.twoTagData()
 		for _, side := range []struct {
@@ -190,6 +223,79 @@ func optsGovernLookups(g *Gen, o *Out, n int) {
 				if norm(ref) != norm(got) {
 					o.finding(Finding{Property: "C18", Kind: "failing-input", What: fmt.Sprintf("the tag name %q does not govern every lookup: %s on the tagged struct, %s on the untagged mirror", side.tag, got, ref),
 						Request: lastReq(o), Detail: text})
+				}
+			}
+		}
+	}
+}
+
+// shapeShiftHistory (C13, C06): ONE evaluator meets data in which the SAME path holds values of
+// different Go shapes from call to call — list, string-keyed map, typed slice, typed map, array,
+// scalar, nil, absent — in random order; every call must equal a fresh evaluator's.  A syntax tree
+// or option record specialised in place to the shape of the first datum shows up here.
+func shapeShiftHistory(g *Gen, o *Out, n int) {
+	for i := 0; i < n; i++ {
+		a, b := float64(g.r.Intn(4)), float64(4+g.r.Intn(4))
+		variants := []interface{}{
+			[]interface{}{a, b}, map[string]interface{}{"0": a, "1": b}, map[string]interface{}{"k": a, "x": b}, []int{int(a), int(b)}, map[string]int{"a": int(a), "b": int(b)},
+			[2]float64{a, b}, []interface{}{}, map[string]interface{}{}, "str", nil, b, []interface{}{map[string]interface{}{"f": a}, map[string]interface{}{"f": b}},
+			map[string]interface{}{"p": map[string]interface{}{"f": a}, "q": map[string]interface{}{"f": b}}, []string{"0", "x"}, map[string]string{"x": "0", "0": "x"},
+			[]interface{}{[]interface{}{a}, []interface{}{b}}, map[int]string{1: "a"}, []interface{}{a, nil, "s"},
+		}
+		var data []interface{}
+		for _, v := range variants {
+			data = append(data, map[string]interface{}{"Items": v, "x": b, "k": "0", "n": map[string]interface{}{"Items": v}})
+		}
+		data = append(data, map[string]interface{}{"x": b, "k": "0"}, map[string]interface{}{"Items": []interface{}{b}, "n": map[string]interface{}{}})
+		names := []string{"x", "k", "v", "Items", "n"}
+		n1, n2 := names[g.r.Intn(len(names))], names[g.r.Intn(len(names))]
+		lit := []string{fmt.Sprint(int(a)), fmt.Sprint(int(b)), "0", "x", "a"}[g.r.Intn(5)]
+		bodyName := []string{n1, n2, "x", "k"}[g.r.Intn(4)]
+		bodies := []GExpr{
+			GMatch{Path: []string{bodyName}, Op: []string{"eq", "ne"}[g.r.Intn(2)], Raw: lit},
+			GMatch{Path: []string{bodyName, "f"}, Op: "eq", Raw: lit},
+			GColl{Op: "any", Path: []string{bodyName}, Mode: "default", Def: "y", Inner: GMatch{Path: []string{"y"}, Op: "eq", Raw: lit}},
+			GAnd{GMatch{Path: []string{n1}, Op: "ne", Raw: lit}, GMatch{Path: []string{"x"}, Op: "eq", Raw: fmt.Sprint(int(b))}},
+		}
+		collPath := [][]string{{"Items"}, {"n", "Items"}}[g.r.Intn(2)]
+		forms := []GColl{{Mode: "default", Def: n1}, {Mode: "indexvalue", Idx: n1, Val: n2}, {Mode: "index", Idx: n1}, {Mode: "value", Val: n1}}
+		c := forms[g.r.Intn(len(forms))]
+		c.Op, c.Path, c.Inner = []string{"any", "all"}[g.r.Intn(2)], collPath, bodies[g.r.Intn(len(bodies))]
+		var e GExpr = c
+		switch g.r.Intn(6) {
+		case 0:
+			e = GMatch{Path: collPath, Op: []string{"in", "notin", "empty", "notempty"}[g.r.Intn(4)], Raw: lit, Contains: g.r.Intn(2) == 0}
+		case 1:
+			e = GMatch{Path: append(append([]string{}, collPath...), []string{"0", "a", "x", "zz"}[g.r.Intn(4)]), Op: matchOps[g.r.Intn(6)], Raw: lit}
+		case 2:
+			e = GOr{c, GMatch{Path: []string{n1}, Op: "eq", Raw: lit}}
+		}
+		text, _, ok := g.renderTop(e)
+		if !ok {
+			continue
+		}
+		var opts []OptSpec
+		if g.r.Intn(4) == 0 {
+			opts = append(opts, OptSpec{Kind: "unk", Unk: []interface{}{"u", []interface{}{a}, nil}[g.r.Intn(3)]})
+		}
+		ev, _ := create(text, opts)
+		if ev == nil {
+			continue
+		}
+		var hist []string
+		for h, hl := 0, 3+g.r.Intn(6); h < hl; h++ {
+			d := data[g.r.Intn(len(data))]
+			if g.r.Intn(5) < 3 {
+				d = data[g.r.Intn(6)] // mostly the iterable shapes: list, maps, typed slice, typed map, array
+			}
+			got := safeEvaluate(ev, d)
+			want := evalText(o, opts, text, d)
+			hist = append(hist, got)
+			o.count("shapeshift:" + norm(got))
+			if got != want {
+				o.finding(Finding{Property: "C13", Kind: "failing-history", What: fmt.Sprintf("call %d on a used evaluator returns %s, a fresh evaluator %s (the same path held values of different shapes; history %v)", h, got, want, hist), Request: lastReq(o), Detail: text})
+				if _, isColl := e.(GColl); isColl {
+					o.finding(Finding{Property: "C06", Kind: "failing-history", What: fmt.Sprintf("the fold depends on the shapes earlier data had at the collection path: %s vs fresh %s (history %v)", got, want, hist), Request: lastReq(o), Detail: text})
 				}
 			}
 		}
